@@ -30,6 +30,9 @@ use std::sync::{mpsc, Arc, Once};
 use std::time::{Duration, Instant};
 use test_assembler::{Endian as TEndian, Section};
 
+#[path = "read_time.rs"]
+mod time_cases;
+
 pub struct Read;
 
 // ------------------------------------------------------------------------------------- oracle
@@ -3078,6 +3081,8 @@ impl Engine for Read {
     }
 
     fn generate(&self, tier: Tier, rng: &mut Rng, emit: &mut dyn FnMut(String)) {
+        // ---- the `time` leaf: format_time_t / format_system_time through the printers (read_time.rs)
+        time_cases::generate(tier == Tier::Quick, &mut rng.fork(), emit);
         let scale: u64 = if tier == Tier::Quick { 6 } else { 24 };
         let cap: usize = if tier == Tier::Quick { 200 * 1024 } else { 1024 * 1024 };
         // ---- seeds
@@ -3267,6 +3272,9 @@ impl Engine for Read {
     }
 
     fn model_request(&self, case: &str) -> Option<String> {
+        if time_cases::is_time_case(case) {
+            return time_cases::parse(case).map(|tc| time_cases::model_request(&tc));
+        }
         let (bytes, _) = parse_case(case)?;
         Some(format!("read {} sizes:{}", hex(&bytes), mem_sizes()))
     }
@@ -3274,6 +3282,9 @@ impl Engine for Read {
     fn same(&self, impl_out: &str, model_out: &str) -> bool {
         if matches!(impl_out, "SKIPPED" | "RUNAWAY-ALLOC" | "HANG" | "WORKER-DIED") {
             return true; // no answer to compare; the oracle has reported the case (or it was skipped)
+        }
+        if let Some(t) = impl_out.strip_prefix("time=") {
+            return t == model_out; // a `read time …` case: the printed text, byte for byte
         }
         let (Some((il, ir)), Some((ml, mr))) = (impl_out.split_once(" ## "), model_out.split_once(" ## ")) else {
             return false;
@@ -3309,6 +3320,12 @@ impl Engine for Read {
 
     fn exec(&self, case: &str) -> ImplResult {
         install_hook();
+        if time_cases::is_time_case(case) {
+            return match time_cases::parse(case) {
+                Some(tc) => time_cases::exec(&tc),
+                None => ImplResult { out: "bad-case".into(), oracle: vec![("bad-case".into(), case.chars().take(80).collect())], ..Default::default() },
+            };
+        }
         let Some((bytes, cat)) = parse_case(case) else {
             return ImplResult { out: "bad-case".into(), oracle: vec![("bad-case".into(), case.chars().take(80).collect())], ..Default::default() };
         };
